@@ -210,11 +210,31 @@ def parse_coq_value(out):
     return json.loads(t)
 
 
+SHARD_WEIGHT = 2_000_000
+_REP = re.compile(r"(?:rep|ramp)\s+\d+\s+(\d+)")
+
+
+def term_weight(t):
+    """Rough number of bytes a case term stands for: literal elements plus the lengths of `rep b n` / `ramp b n` runs."""
+    return t.count(";") + sum(int(n) for n in _REP.findall(t))
+
+
 def coq_eval(preamble, runner, terms, workdir, tag, timeout=900, shard=250):
     """Evaluate `runner term` for each Gallina term, sharded over parallel coqc processes.
     Returns list of results (nested lists of ints) in order."""
     os.makedirs(workdir, exist_ok=True)
-    shards = [terms[i:i + shard] for i in range(0, len(terms), shard)]
+    # shards are bounded in number of cases AND in the amount of data they evaluate (a coqc process keeps the printed
+    # results of its whole shard in memory: production-size messages would otherwise need several GB per process)
+    shards, cur, w = [], [], 0
+    for t in terms:
+        tw = term_weight(t)
+        if cur and (len(cur) >= shard or w + tw > SHARD_WEIGHT):
+            shards.append(cur)
+            cur, w = [], 0
+        cur.append(t)
+        w += tw
+    if cur:
+        shards.append(cur)
     files = []
     for k, sh_terms in enumerate(shards):
         path = os.path.join(workdir, f"cases_{tag}_{k}.v")
